@@ -171,6 +171,28 @@ class FuncAnalysis:
                 out.append(c)
         return out
 
+    def syntactic_guards(self, target: ast.AST) -> List[tuple]:
+        """Predicates from the If statements that syntactically enclose target
+        (early-exit filters before it are not included)."""
+        out = []
+        child = target
+        for p in parents(target):
+            if p is self.f.node:
+                break
+            if isinstance(p, ast.If):
+                in_body = any(child is s for s in p.body)
+                in_else = any(child is s for s in p.orelse)
+                if in_body or in_else:
+                    n = self.cfg.node_of(p.test)
+                    c = self.sym.cmp(p.test, n.id if n else None, neg=in_else)
+                    c = cmp_strip_nan(c)
+                    if c[0] == "and":
+                        out.extend(c[1])
+                    else:
+                        out.append(c)
+            child = p
+        return out
+
     def seg(self, node: ast.AST) -> str:
         return self.f.module.seg(node)
 
